@@ -104,31 +104,13 @@ def succPhase (f : Flavour) (ph : Phase) (m : Method) (ask : SetupAsk) : Option 
   | .pause, .playing => if f == .wsp then some .playing else none
   | _, _ => none
 
-/-- One observation against the automaton.  `Except` carries the class of the violation. -/
-def mstep (f : Flavour) (st : MState) (o : Obs) : Except String MState :=
-  if st.phase == .closed then
-    -- nothing may come out of a closed session
-    if o.nresp == 0 then .ok st else .error "response-after-close"
-  else if o.hangup then
-    if o.closed && o.consumers == 0 && !o.published then .ok { phase := .closed, consumers := 0, published := false }
-    else .error "not-released-on-disconnect"
-  else if o.nresp == 0 then .error "no-response"
-  else if o.nresp > 1 then .error "several-responses"
-  else if !o.cseqOk then .error "cseq-not-echoed"
-  else if !o.sidOk then .error "session-id-missing"
-  else if o.method == .teardown then
-    if o.code != 200 then .error "teardown-refused"
-    else if o.closed && o.consumers == 0 && !o.published then .ok { phase := .closed, consumers := 0, published := false }
-    else .error "not-released-on-teardown"
-  else if o.closed then .error "connection-lost"       -- usable after any (refused or accepted) request
-  else if o.method == .options then
-    if o.code != 200 then .error "options-refused"
-    else if o.consumers != st.consumers || o.published != st.published then .error "options-not-inert"
-    else .ok st
-  else if !legal f st.phase o.method && o.code != 455 then .error "illegal-method-not-455"
+/-- the state-dependent part of the judgement: the request is neither OPTIONS nor TEARDOWN, it
+    got exactly one well-formed response and the connection is still open -/
+def mstepState (f : Flavour) (st : MState) (o : Obs) : Except String MState :=
+  if !legal f st.phase o.method && o.code != 455 then .error "illegal-method-not-455"
   else if o.code == 455 then
     if o.consumers != st.consumers || o.published != st.published then .error "455-not-inert"
-    else if (o.method == .describe || o.method == .announce || o.method == .setup) && legal f st.phase o.method then
+    else if (o.method == .describe || o.method == .announce || o.method == .setup || (o.method == .play && f == .rtsp)) && legal f st.phase o.method then
       .error "legal-method-455"
     else .ok st
   else if o.code == 200 then
@@ -146,6 +128,33 @@ def mstep (f : Flavour) (st : MState) (o : Obs) : Except String MState :=
     -- refused with another status: nothing is gained or lost, the session stays where it is
     if o.consumers != st.consumers || o.published != st.published then .error "refusal-not-inert"
     else .ok st
+
+/-- the judgement of a request that got exactly one well-formed response -/
+def mstepResp (f : Flavour) (st : MState) (o : Obs) : Except String MState :=
+  if o.method == .teardown then
+    if o.code != 200 then .error "teardown-refused"
+    else if o.closed && o.consumers == 0 && !o.published then .ok { phase := .closed, consumers := 0, published := false }
+    else .error "not-released-on-teardown"
+  else if o.closed then .error "connection-lost"       -- usable after any (refused or accepted) request
+  else if o.method == .options then
+    if o.code != 200 then .error "options-refused"
+    else if o.consumers != st.consumers || o.published != st.published then .error "options-not-inert"
+    else .ok st
+  else mstepState f st o
+
+/-- One observation against the automaton.  `Except` carries the class of the violation. -/
+def mstep (f : Flavour) (st : MState) (o : Obs) : Except String MState :=
+  if st.phase == .closed then
+    -- nothing may come out of a closed session
+    if o.nresp == 0 then .ok st else .error "response-after-close"
+  else if o.hangup then
+    if o.closed && o.consumers == 0 && !o.published then .ok { phase := .closed, consumers := 0, published := false }
+    else .error "not-released-on-disconnect"
+  else if o.nresp == 0 then .error "no-response"
+  else if o.nresp > 1 then .error "several-responses"
+  else if !o.cseqOk then .error "cseq-not-echoed"
+  else if !o.sidOk then .error "session-id-missing"
+  else mstepResp f st o
 
 /-- run the monitor over a whole observed dialogue -/
 def mrun (f : Flavour) : MState → List Obs → Except String MState
